@@ -175,6 +175,17 @@ func jsonMain(args []string) {
 		created := time.Date(2020+p.intn(5), time.Month(1+p.intn(12)), 1+p.intn(28), p.intn(24), p.intn(60), p.intn(60), p.intn(2)*p.intn(1e9), time.UTC)
 		ctok, _ := json.Marshal(created)
 		e := &eventlogger.Event{Type: eventlogger.EventType(ty), CreatedAt: created, Formatted: map[string][]byte{}, Payload: payload}
+		// a quarter of the events reach the formatter with a json entry already in the table (an earlier
+		// formatter of the pipeline, another pipeline of the type, the caller): the formatter is the last writer
+		var stale []byte
+		if p.chance(1, 4) {
+			stale = []byte("{\"created_at\":\"2001-01-01T00:00:00Z\",\"event_type\":\"stale\",\"payload\":\"stale-secret\"}\n")
+			if p.chance(1, 3) {
+				stale = []byte("not json at all")
+			}
+			e.FormattedAs("json", stale)
+			st.hit("prefilled-json-entry")
+		}
 		useFilter := p.intn(2) == 0
 		pred := "absent"
 		var got *eventlogger.Event
@@ -205,7 +216,7 @@ func jsonMain(args []string) {
 		switch {
 		case err != nil:
 			res = "error"
-			if unsupported && has {
+			if unsupported && has && !(stale != nil && string(stored) == string(stale)) {
 				oracle("C14 unencodable payload but bytes were stored")
 			}
 		case got == nil:
@@ -218,6 +229,9 @@ func jsonMain(args []string) {
 		}
 		if unsupported && err == nil {
 			oracle("C14 unencodable payload accepted")
+		}
+		if err == nil && stale != nil && string(stored) == string(stale) {
+			oracle("C14 the json entry present before Process survived: the stored line is not the line of this event (last writer wins)")
 		}
 		if err == nil {
 			// one newline-terminated line of valid JSON with exactly the three members
